@@ -1,8 +1,8 @@
 (* Response-parser proofs, part 2: the lax chunked payload parser (HttpResp.rchunked_loop /
    rfeed_payload) as an instance of the generic loop of Proofs/HttpSegBase.v: one-step function,
    fuel independence, prefix stability, well-formedness of the state left behind, and the
-   payload-level splitting lemmas.  `unpark c = c` ("clean"): the read did not end right after the
-   last-chunk line nor right after an optional CR that follows chunk data. *)
+   payload-level splitting lemmas.  `unpark c = c` ("clean"): the read did not end right after an
+   optional CR that follows chunk data. *)
 From Coq Require Import ZifyBool ZifyN.
 From AV Require Import Lib.Base Lib.BytesX Lib.Utf8Decode Generated.HttpGen Generated.HttpRespGen Model.Http Model.HttpResp
   Proofs.HttpSegBase Proofs.HttpRespBase.
@@ -27,7 +27,7 @@ Definition rstep_c (lim : limits) (mt : N) (s : rcst) (chunk : bytes) : (rcst * 
         let size_b := strip_bws (match split_byte 59 raw with Some (sz, _) => sz | None => raw end) in
         if negb (nonempty size_b && forallb hex_digit size_b) then inr (QFail ETransferEncoding evs)
         else let size := parse_hex size_b in
-             if size =? 0 then inl ((RTrail0, tl, evs), rest)
+             if size =? 0 then inl ((RTrailers, tl, evs), rest)
              else inl ((RData size, tl, evs), rest)
       | None => inr (QNeed (mkRP (RChunked RSize) chunk tl mt) evs)
       end
@@ -46,9 +46,6 @@ Definition rstep_c (lim : limits) (mt : N) (s : rcst) (chunk : bytes) : (rcst * 
         end
       else if a =? 10 then inl ((RSize, tl, evs), r)
       else inr (QFail ETransferEncoding evs)
-    | RTrail0 =>
-      if a =? 13 then inl ((RTrailers, tl, evs), r)
-      else inl ((RTrailers, tl, evs), chunk)
     | RTrailers =>
       match find_lf chunk with
       | None => inr (QNeed (mkRP (RChunked RTrailers) chunk tl mt) evs)
@@ -85,7 +82,7 @@ Qed.
 
 Definition rcdflt (s : rcst) : rpres := QFail EBadMessage (snd s).
 Definition rmu_c (s : rcst) : nat :=
-  match fst (fst s) with RData _ => 1%nat | RTrail0 => 1%nat | _ => 0%nat end.
+  match fst (fst s) with RData _ => 1%nat | _ => 0%nat end.
 Definition rcwf (s : rcst) : Prop := match fst (fst s) with RData rem => 0 < rem | _ => True end.
 
 Definition rcloop lim mt := loop (rstep_c lim mt) rcdflt.
@@ -112,7 +109,6 @@ Proof.
   - destruct (takeN rem (a :: r)) as [d rest] eqn:E. apply takeN_rest_len in E.
     dmH H; [|discriminate]. inj_inl H. cbn [fst]. split; [exact I|lia].
   - repeat (dmH H; try discriminate); inj_inl H; cbn [fst length]; split; try exact I; lia.
-  - repeat (dmH H; try discriminate); inj_inl H; cbn [fst length]; split; try exact I; lia.
   - destruct (find_lf (a :: r)) as [[raw rest]|] eqn:E; [|discriminate].
     apply find_lf_len in E.
     repeat (dmH H; try discriminate); inj_inl H; cbn [fst]; split; try exact I; try lia.
@@ -134,7 +130,6 @@ Proof.
     + destruct r as [|b rest]; [discriminate|]. cbn [app].
       destruct (b =? 10); [|discriminate]. inj_inl H. reflexivity.
     + destruct (a =? 10); [|discriminate]. inj_inl H. reflexivity.
-  - destruct (a =? 13); inj_inl H; reflexivity.
   - destruct (find_lf (a :: r)) as [[raw rest]|] eqn:E; [|discriminate].
     apply (find_lf_app _ y) in E. cbn [app] in E. rewrite E.
     repeat (dmH H; try discriminate); inj_inl H; reflexivity.
@@ -149,7 +144,7 @@ Definition rwfc (c : rcstate) (ct : bytes) : Prop :=
   match c with
   | RSize | RTrailers => find_lf ct = None
   | RData rem => 0 < rem /\ ct = []
-  | RDataEnd _ | RTrail0 => ct = []
+  | RDataEnd _ => ct = []
   end.
 
 Definition rwfp (p : rpstate) : Prop :=
@@ -163,7 +158,7 @@ Lemma rwfc_cwf c ct tl evs : rwfc c ct -> rcwf (c, tl, evs).
 Proof. unfold rwfc, rcwf. cbn [fst]. destruct c; try tauto. Qed.
 
 Lemma rwfc_unpark c ct : rwfc c ct -> rwfc (unpark c) ct.
-Proof. destruct c; cbn [unpark rwfc]; try tauto. intros ->. reflexivity. Qed.
+Proof. destruct c; cbn [unpark rwfc]; tauto. Qed.
 
 Lemma rstep_c_data lim mt rem tl evs a r d rest : takeN rem (a :: r) = (d, rest) ->
   rstep_c lim mt (RData rem, tl, evs) (a :: r) =
@@ -172,22 +167,12 @@ Lemma rstep_c_data lim mt rem tl evs a r d rest : takeN rem (a :: r) = (d, rest)
 Proof. intros E. cbn [rstep_c]. rewrite E. reflexivity. Qed.
 
 (* ------------------------------------------------------------------ resuming after a read boundary *)
-(* a line made of CRs only, terminated by LF *)
-Definition all_cr_line (y : bytes) : bool :=
-  match find_lf y with
-  | Some (raw, _) => match rstrip_cr raw with [] => true | _ => false end
-  | None => false
-  end.
-
 (* the bytes y that follow a read boundary are read the same way as if there had been no boundary.
-   Only two parked states care: after an optional CR that followed chunk data (the next read would
-   skip one more CR): y must not start with CR; after the last-chunk line (its optional CR is only
-   skipped within the same read): y must not start with CR, unless that CR belongs to a line of CRs
-   only (an empty line either way) *)
+   Only one parked state cares: after an optional CR that followed chunk data (the next read would
+   skip one more CR) y must not start with CR *)
 Definition resume_c (c : rcstate) (y : bytes) : bool :=
   match c with
   | RDataEnd true => match y with b :: _ => negb (b =? 13) | [] => false end
-  | RTrail0 => match y with b :: y' => negb (b =? 13) || all_cr_line y' | [] => false end
   | _ => true
   end.
 
@@ -221,23 +206,6 @@ Proof.
   apply (loop_fuel _ _ _ _ rmu_c rcwf (rstep_c_dec lim mt)); [exact W'|lia|lia].
 Qed.
 
-Lemma rstrip_cr_cons_cr raw : rstrip_cr raw = [] -> rstrip_cr (13 :: raw) = [].
-Proof. unfold rstrip_cr. cbn [rstrip_by]. intros ->. reflexivity. Qed.
-
-(* a line of CRs only is the empty line, with or without one more CR in front *)
-Lemma rstep_c_trailers_crline lim mt tl evs y raw rest :
-  find_lf y = Some (raw, rest) -> rstrip_cr raw = [] ->
-  rstep_c lim mt (RTrailers, tl, evs) (13 :: y) = rstep_c lim mt (RTrailers, tl, evs) y /\
-  exists r, rstep_c lim mt (RTrailers, tl, evs) y = inr r.
-Proof.
-  intros Hf Hr. destruct y as [|a r]; [discriminate|].
-  assert (Hf2 : find_lf (13 :: a :: r) = Some (13 :: raw, rest)).
-  { unfold find_lf in *. cbn [split_byte]. change (13 =? 10) with false. cbv iota.
-    cbn [split_byte] in Hf. rewrite Hf. reflexivity. }
-  cbn [rstep_c]. rewrite Hf2, Hf. rewrite (rstrip_cr_cons_cr _ Hr), Hr. split; [reflexivity|].
-  repeat dm_goal; eexists; reflexivity.
-Qed.
-
 (* a stop asking for more input: the state left behind, and how the run resumes on bytes y that are
    safe for that state *)
 Lemma rcstop_need lim mt c tl evs x p' e1 :
@@ -253,23 +221,10 @@ Proof.
   { cbn [rstep_c] in H. inversion H; subst. exists c, [], tl. split; [reflexivity|]. split.
     - unfold rcwf in Hw. cbn [fst] in Hw. unfold rwfc. destruct c; auto.
     - intros y Hy f f' H1 H2. cbn [app] in *.
-      destruct c as [| rem | [|] | |]; cbn [unpark] in *; try (apply rcloop_fuel; assumption).
-      + (* RDataEnd true: the step function does not look at the mark *)
-        destruct y as [|b y']; [discriminate|].
-        apply rcloop_step_eq; try exact I; try assumption. reflexivity.
-      + (* RTrail0 *)
-        destruct y as [|b y']; [discriminate|]. cbn [resume_c] in Hy.
-        destruct (b =? 13) eqn:Eb.
-        * cbn [negb orb] in Hy. apply N.eqb_eq in Eb. subst b.
-          unfold all_cr_line in Hy. destruct (find_lf y') as [[raw rest]|] eqn:Ef; [|discriminate].
-          destruct (rstrip_cr raw) eqn:Er; [|discriminate].
-          destruct (rstep_c_trailers_crline lim mt tl e1 y' raw rest Ef Er) as [E1 [r0 E2]].
-          (* left: skip the CR, then the empty line; right: the CR-only line is the empty line *)
-          destruct f as [|f]; [lia|]. unfold rcloop. cbn [loop]. cbn [rstep_c]. change (13 =? 13) with true. cbv iota.
-          destruct f as [|f]; [unfold meas, rmu_c in H1; cbn [fst length] in H1; destruct y'; [discriminate|cbn [length] in H1; lia]|].
-          destruct f' as [|f']; [lia|]. cbn [loop]. rewrite E1, E2. reflexivity.
-        * eapply rcloop_step_left; [exact I| |exact H1|exact H2].
-          cbn [rstep_c]. rewrite Eb. reflexivity. }
+      destruct c as [| rem | [|] |]; cbn [unpark] in *; try (apply rcloop_fuel; assumption).
+      (* RDataEnd true: the step function does not look at the mark *)
+      destruct y as [|b y']; [discriminate|].
+      apply rcloop_step_eq; try exact I; try assumption. reflexivity. }
   destruct c.
   - (* RSize *) cbn [rstep_c] in H.
     destruct (find_lf (a :: r)) as [[raw rest]|] eqn:E.
@@ -312,7 +267,6 @@ Proof.
       apply rcloop_step_eq2; try exact I; try assumption.
       cbn [rstep_c]. change (13 =? 13) with true. cbv iota. rewrite Hy. reflexivity.
     + dmH H; discriminate.
-  - (* RTrail0: always steps *) cbn [rstep_c] in H. dmH H; discriminate.
   - (* RTrailers *) cbn [rstep_c] in H.
     destruct (find_lf (a :: r)) as [[raw rest]|] eqn:E.
     { repeat (dmH H; try discriminate). }
@@ -327,7 +281,6 @@ Lemma rcstop_done lim mt s x rest e y :
 Proof.
   destruct s as [[c tl] evs]. intro H. destruct x as [|a r]; [discriminate|].
   destruct c; cbn [rstep_c app] in *.
-  - repeat (dmH H; try discriminate).
   - repeat (dmH H; try discriminate).
   - repeat (dmH H; try discriminate).
   - repeat (dmH H; try discriminate).
@@ -410,7 +363,6 @@ Proof.
     destruct (takeN rem (a :: r)) as [d0 rest] eqn:E. apply takeN_rest_len in E.
     dm_in; [assumption|exact I].
   - subst ct. cbn [app] in Ex. subst d. repeat dm_in; try exact I; cbn [length]; lia.
-  - subst ct. cbn [app] in Ex. subst d. repeat dm_in; try exact I; cbn [length]; lia.
   - destruct (find_lf (a :: r)) as [[raw rest]|] eqn:E; [|exact I].
     rewrite <- Ex in E. apply (find_lf_none_app _ _ _ _ Hw) in E.
     repeat dm_in; try exact I; lia.
@@ -458,11 +410,10 @@ Proof.
   - unfold rfeed_payload in H. rewrite Ek in H. discriminate.
 Qed.
 
-(* the parser state does not sit at one of the two places where the lax CR skipping depends on the
-   read boundary *)
+(* the parser state does not sit at the place where the lax CR skipping depends on the read boundary *)
 Definition rclean (p : rpstate) : bool :=
   match rpk p with
-  | RChunked (RDataEnd true) | RChunked RTrail0 => false
+  | RChunked (RDataEnd true) => false
   | _ => true
   end.
 
@@ -471,7 +422,7 @@ Definition rresume_ok (p : rpstate) (y : bytes) : bool :=
   match rpk p with RChunked c => resume_c c y | _ => true end.
 
 Lemma rclean_resume p y : rclean p = true -> rresume_ok p y = true.
-Proof. unfold rclean, rresume_ok. destruct (rpk p) as [|c|]; try reflexivity. destruct c as [| | [|] | |]; try discriminate; reflexivity. Qed.
+Proof. unfold rclean, rresume_ok. destruct (rpk p) as [|c|]; try reflexivity. destruct c as [| | [|] |]; try discriminate; reflexivity. Qed.
 
 Lemma rfeed_payload_need lim p x evs p' e1 : rwfp p ->
   rfeed_payload lim p x evs = QNeed p' e1 ->
